@@ -575,7 +575,8 @@ class ChainedDiscretizer(BaseDiscretizer):
                     # adding unknown to the order
                     for unknown_value in unknown_values:
                         order.append(unknown_value)
-                        order.append(self.str_nan)
+                        if self.str_nan not in order:
+                            order.append(self.str_nan)
                         # grouping unknown value with str_nan
                         order.group(unknown_value, self.str_nan)
 
